@@ -59,6 +59,11 @@ Proof.
   rewrite Hother.
   cbn [obind set_field set_kv String.eqb Ascii.eqb Bool.eqb]. reflexivity.
 Qed.
+
+(* a chunk object decrypts with the key derived from the digest of its plaintext *)
+Theorem chunk_roundtrip (r : R) (c : B) :
+  obind (chunk_ciphertext encrypt hash derive r c) (chunk_plaintext decrypt derive (hash c)) = Some c.
+Proof. unfold chunk_ciphertext, chunk_plaintext. cbn [obind]. rewrite dec_enc. reflexivity. Qed.
 End BodyProofs.
 
 (* ------------------------------------------------------------------ metadata variants *)
